@@ -81,9 +81,11 @@ def run_tensor(ns, mon, case):
     sig = f"{op.name}.{case['form']}"
     viol, counters = [], {}
     outs_by_dt = {}
+    grads32 = None
     for dt in (np.float64, np.float32):
         xs = [x.astype(dt) for x in xs64]
         T = ns.Tensor
+        grng = gen.rng_for(case["seed"], "g-shared")            # the same upstream gradient for every dtype
         if a.get("alias"):
             t0 = T(xs[0].copy(), requires_grad=True)
             ts = [t0] * len(xs)
@@ -108,7 +110,7 @@ def run_tensor(ns, mon, case):
         gdt = (np.float32 if dt == np.float64 else np.float64) if case["gother"] else dt
         try:
             for o in outs:
-                o.backward(T(gen.upstream(rng, o.shape, "normal").astype(gdt)))
+                o.backward(T(gen.upstream(grng, o.shape, "normal").astype(gdt)))
         except Exception as e:
             viol.append(V(f"{sig}:backward-raises:g-{'other' if case['gother'] else 'same'}-dtype", f"backward raised {type(e).__name__} with a {np.dtype(gdt).name} upstream gradient on a {np.dtype(dt).name} result",
                           error=str(e)[:200]))
@@ -125,6 +127,8 @@ def run_tensor(ns, mon, case):
             gt = t.grad
             if gt is not None and (gt.dtype != t.dtype or gt.shape != t.shape):
                 viol.append(V(f"{sig}:grad-property", ".grad property returns a tensor of another dtype/shape than the buffer"))
+        if dt == np.float32:
+            grads32 = [None if t._grad is None else np.asarray(t._grad, dtype=np.float64).copy() for t in ts]
     if "float32" in outs_by_dt and "float64" in outs_by_dt:
         try:
             yabs = op.ref([np.abs(x.astype(np.float32).astype(np.float64)) for x in xs64], a)
@@ -136,10 +140,27 @@ def run_tensor(ns, mon, case):
         xs32as64 = [x.astype(np.float32).astype(np.float64) for x in xs64]
         try:
             with np.errstate(all="ignore"):
-                ts = [ns.Tensor(x.copy()) for x in xs32as64]
+                ts = [ns.Tensor(x.copy(), requires_grad=True) for x in xs32as64]
                 if a.get("alias"):
                     ts = [ts[0]] * len(ts)
                 o64 = op.forms[case["form"]](ns, ts, a)
+                o64l = list(o64) if isinstance(o64, (tuple, list)) else [o64]
+                if grads32 is not None and o64l and all(o.requires_grad for o in o64l):
+                    # the float32 gradients describe the same function as the float64 ones: same operands (float32-rounded), same upstream g
+                    grng = gen.rng_for(case["seed"], "g-shared")
+                    for o in o64l:
+                        o.backward(ns.Tensor(gen.upstream(grng, o.shape, "normal").astype(np.float32 if case["gother"] else np.float64).astype(np.float64)))
+                    for i_, (g32, t64) in enumerate(zip(grads32, ts)):
+                        g64 = None if t64._grad is None else np.asarray(t64._grad, dtype=np.float64)
+                        if g32 is None or g64 is None or g32.shape != g64.shape or not (np.all(np.isfinite(g32)) and np.all(np.isfinite(g64))) or not g64.size:
+                            continue
+                        counters["gradient_precision_comparisons"] = counters.get("gradient_precision_comparisons", 0) + 1
+                        scale = float(np.max(np.abs(g64)))
+                        if float(np.max(np.abs(g32 - g64))) > 0.02 * scale + 1e-4 * max(1.0, opmax):
+                            viol.append(V(f"{sig}:float32-gradient-disagrees-with-float64", f"gradient of operand {i_} computed in float32 differs from the float64 gradient "
+                                          f"of the same function by {float(np.max(np.abs(g32 - g64))):.3g} (max |g| = {scale:.3g})", args=a, shapes=case["shapes"]))
+                        if a.get("alias"):
+                            break
             o64 = [np.asarray(o.data, dtype=np.float64) for o in (list(o64) if isinstance(o64, (tuple, list)) else [o64])]
         except Exception:
             o64 = None
@@ -183,7 +204,9 @@ def run_nn(ns, mon, case):
     req = [sp["diff"] for sp in specs]
     res = {}
     rng = gen.rng_for(case["seed"], "g")
+    grads32 = None
     for dt in (np.float64, np.float32):
+        rng = gen.rng_for(case["seed"], "g")                 # the same upstream gradient for every dtype
         xsd = [x.astype(dt) if not sp["int"] else x for sp, x in zip(specs, xs)]
         mixed = case["mixed"] and dt == np.float64 and case["form"] == "module" and len(specs) > 1 and op.name in ("linear", "conv1d", "conv2d", "batch_norm")
         try:
@@ -225,12 +248,36 @@ def run_nn(ns, mon, case):
                 viol.append(V(f"{sig}:{sp['name']}:grad-shape", f"grad shape {list(g.shape)} != {list(t.data.shape)}", args=a))
             elif g.dtype != t.data.dtype:
                 viol.append(V(f"{sig}:{sp['name']}:grad-dtype", f"grad dtype {g.dtype} != {t.data.dtype}", args=a))
+        if dt == np.float32 and not mixed:
+            grads32 = [None if t._grad is None else np.asarray(t._grad, dtype=np.float64).copy() for t in ts]
     if "float32" in res and "float64" in res and op.name != "dropout":
         xs32 = [x.astype(np.float32).astype(np.float64) if not sp["int"] else x for sp, x in zip(specs, xs)]
         try:
             with np.errstate(all="ignore"):
-                _, o64 = nncommon.forward(ns, case, xs32, dtype=np.float64)
+                ts64, o64 = nncommon.forward(ns, case, xs32, dtype=np.float64, req=req)
             y64 = np.asarray(o64.data, dtype=np.float64)
+            if grads32 is not None and o64.requires_grad and not a.get("second_forward") and not a.get("history") and not case.get("twice"):
+                # the float32 gradients describe the same function as the float64 ones (same float32-rounded operands, same upstream g)
+                grng = gen.rng_for(case["seed"], "g")
+                g_ = np.asarray(gen.upstream(grng, o64.shape, "normal"))
+                g_ = g_.astype(np.float64 if case["gother"] else np.float32).astype(np.float64)
+                cond_ok = True
+                if op.name == "batch_norm":
+                    x0_ = xs32[0]
+                    use_batch_ = a["training"] or not a["track"]
+                    sig_ = np.sqrt(np.var(x0_, axis=tuple(i for i in range(x0_.ndim) if i != 1)) + a["eps"]) if use_batch_ else np.sqrt(np.abs(xs32[-1]) + a["eps"])
+                    cond_ok = float(np.max(np.abs(x0_))) / float(np.min(sig_)) < 100
+                with np.errstate(all="ignore"):
+                    o64.backward(ns.Tensor(g_))
+                for sp, g32, t64 in zip(specs, grads32, ts64):
+                    g64 = None if t64._grad is None else np.asarray(t64._grad, dtype=np.float64)
+                    if not cond_ok or g32 is None or g64 is None or g32.shape != g64.shape or not g64.size or not (np.all(np.isfinite(g32)) and np.all(np.isfinite(g64))):
+                        continue
+                    counters["gradient_precision_comparisons"] = counters.get("gradient_precision_comparisons", 0) + 1
+                    scale = float(np.max(np.abs(g64)))
+                    if float(np.max(np.abs(g32 - g64))) > 0.02 * scale + 1e-4:
+                        viol.append(V(f"{sig}:{sp['name']}:float32-gradient-disagrees-with-float64", f"gradient of '{sp['name']}' computed in float32 differs from the "
+                                      f"float64 gradient of the same function by {float(np.max(np.abs(g32 - g64))):.3g} (max |g| = {scale:.3g})", args=a))
             y32 = res["float32"]
             counters["precision_comparisons"] = counters.get("precision_comparisons", 0) + 1
             if y32.shape != y64.shape:
